@@ -36,9 +36,18 @@ def gen_case(rng):
         pools.append(p[:rng.randint(1, 3)])
     p_none = rng.choice([0.0, 0.0, 0.15, 0.3])
     nl, nr = rng.randint(0, 7), rng.randint(0, 7)
+    # "unique" mode: keys without repetition on both sides, a long left and a short right side,
+    # joined under a cardinality expectation that holds (fast paths live behind `expect`)
+    unique = rng.random() < 0.25
+    if unique:
+        big = {"int": list(range(-3, 12)), "str": ["k%d" % i for i in range(10)] + ["K1", "zz"], "bool": [True, False],
+               "date": [V.D1, V.D2, V.D3] + [V.D1.replace(day=d) for d in (5, 9, 17, 23, 28)]}
+        pools = [list(big[k]) for k in kkinds]
+        p_none = 0.0
+        nl, nr = rng.randint(4, 9), rng.randint(1, 2)
     lpay = [rng.choice(PAY_KINDS) for _ in range(rng.randint(0, 2))]
     rpay = [rng.choice(PAY_KINDS) for _ in range(rng.randint(0, 2))]
-    names = ["k", "j", "i", "a", "b", "x", "y", "k"]
+    names = ["k", "j", "i", "a", "b", "x", "y", "k", "K", "A b", "a_b", "a b", "J"]
     lnames = [rng.choice(names) for _ in range(nk + len(lpay))]
     rnames = [rng.choice(names) for _ in range(nk + len(rpay))]
     # key columns are addressed by name only when the name is unambiguous (first occurrence)
@@ -49,11 +58,20 @@ def gen_case(rng):
     rpos = rng.sample(range(nk + len(rpay)), nk)
     meta = {"op": "case", "kkinds": kkinds, "lnames": lnames, "rnames": rnames, "lpos": lpos, "rpos": rpos,
             "lspec": [keyspec(lnames, j) for j in lpos], "rspec": [keyspec(rnames, j) for j in rpos],
-            "single": nk == 1 and rng.random() < 0.5}
+            "single": nk == 1 and rng.random() < 0.5,
+            "expect": rng.choice(["many_to_many", "many_to_many", "one_to_one", "many_to_one", "one_to_many"]) if unique
+            else rng.choices(["many_to_many", "many_to_one", "one_to_many", "one_to_one"], [7, 1, 1, 1])[0]}
+    used = [set(), set()]
 
-    def row(pos, pay, width):
+    def row(pos, pay, width, side=0):
         vals = [None] * width
         keys = [None if rng.random() < p_none else rng.choice(pools[c]) for c in range(nk)]
+        if unique:
+            for _ in range(20):
+                if tuple(map(repr, keys)) not in used[side]:
+                    break
+                keys = [rng.choice(pools[c]) for c in range(nk)]
+            used[side].add(tuple(map(repr, keys)))
         for c, j in enumerate(pos):
             vals[j] = keys[c]
         rest = [j for j in range(width) if j not in pos]
@@ -65,7 +83,7 @@ def gen_case(rng):
     for _ in range(nl):
         trace.append({"op": "lrow", "v": row(lpos, lpay, nk + len(lpay))})
     for _ in range(nr):
-        trace.append({"op": "rrow", "v": row(rpos, rpay, nk + len(rpay))})
+        trace.append({"op": "rrow", "v": row(rpos, rpay, nk + len(rpay), 1)})
     return trace
 
 
@@ -120,8 +138,14 @@ def evaluate(trace):
             kb = tuple(b[j] for j in meta["rpos"])
             if ka == kb:
                 want.append(tuple(V.tv(x) for x in a) + tuple(V.tv(x) for x in b))
+    expect = meta.get("expect", "many_to_many")
+    lkeys = [tuple(a[j] for j in meta["lpos"]) for a in lrows]
+    rkeys = [tuple(b[j] for j in meta["rpos"]) for b in rrows]
+    l_unique = len(set(map(repr, lkeys))) == len(lkeys) and len({k for k in lkeys}) == len(lkeys)
+    r_unique = len({k for k in rkeys}) == len(rkeys)
+    holds = {"many_to_many": True, "many_to_one": r_unique, "one_to_many": l_unique, "one_to_one": l_unique and r_unique}[expect]
     try:
-        res = L.inner_join(R, lon, ron, expect="many_to_many")
+        res = L.inner_join(R, lon, ron, expect=expect)
         exc = None
     except Exception as ex:
         exc = type(ex).__name__
@@ -130,6 +154,10 @@ def evaluate(trace):
         res = None
     if snap_any(L) != sl or snap_any(R) != sr:
         add("C09/input-modified", "inner_join changed one of its inputs", "input")
+    if exc == "SerifValueError" and not holds:
+        # the cardinality expectation does not hold: whether and how that is reported is C11's
+        # subject (not applicable here), not C09's
+        return viols, "expect-violated", ("expect-violated", expect)
     if exc is not None:
         # a key column holding nothing but None has no kind of its own (it infers object?);
         # the library's dtype-agreement check then refuses the pairing with a typed column.
@@ -169,7 +197,7 @@ def evaluate(trace):
             add("C09/wrong-names", "result names %s, sources %s" % (names, wn), "names")
     dup = len(want) - len(set(want))
     key = (len(meta["lpos"]), tuple(meta["kkinds"]), min(len(want), 4), dup > 0, not lrows, not rrows,
-           any(k is None for a in lrows for k in (a[j] for j in meta["lpos"])), bool(viols))
+           any(k is None for a in lrows for k in (a[j] for j in meta["lpos"])), bool(viols), expect, holds)
     return viols, desc, key
 
 
